@@ -3,6 +3,7 @@
 
 use crate::rt::{Ctx, Json};
 
+pub mod c01;
 pub mod c02;
 pub mod c03;
 pub mod c04;
@@ -24,6 +25,7 @@ pub mod c16;
 macro_rules! dispatch {
     ($ctx:expr, $f:ident $(, $arg:expr)*) => {
         match $ctx.property.as_str() {
+            "C01" => c01::$f($ctx $(, $arg)*),
             "C02" => c02::$f($ctx $(, $arg)*),
             "C03" => c03::$f($ctx $(, $arg)*),
             "C04" => c04::$f($ctx $(, $arg)*),
